@@ -82,3 +82,41 @@ package rtpbuffer
 //@        && (slotoff(r, k, old(r.highestAdded)) >= i - old(r.highestAdded) - 1 ==> old(r.packets[k]).header == old(r.packets[k].header) && old(r.packets[k]).payload == old(r.packets[k].payload))
 //@   loop 1 invariant new_packet: packet.count == old(packet.count) && packet.header == old(packet.header) && packet.payload == old(packet.payload) && packet.sequenceNumber == old(packet.sequenceNumber)
 //@   loop 1 decreases packet.sequenceNumber - i
+//@
+//@ # ---- copying packet factory (properties C04, C13): the stored packet is a private copy of what was sent
+//@
+//@ func (*PacketFactoryCopy).NewPacket
+//@   requires hdr: header != nil
+//@   # the payload pool only ever holds the buffers made by NewPacketFactoryCopy's New function (maxPayloadLen+2 bytes), each referenced by nothing else
+//@   assume_after "m.payloadPool.Get" pool_buffers: typeis(result, "*[]byte") ==> len(deref(as(result, "*[]byte"))) == 1462 && cap(deref(as(result, "*[]byte"))) == 1462
+//@        && fresh(deref(as(result, "*[]byte"))) && !sameblock(deref(as(result, "*[]byte")), payload)
+//@   modifies *
+//@   ensures too_big: len(payload) > 1460 ==> result0 == nil && result1 != nil
+//@   ensures ok_or_error: (result0 == nil) <==> (result1 != nil)
+//@   ensures fresh_packet: result0 != nil ==> fresh(result0) && result0.count == 1 && result0.sequenceNumber == header.SequenceNumber
+//@   ensures private_header: result0 != nil ==> result0.header != nil && result0.header != header && fresh(result0.header)
+//@   ensures private_payload: result0 != nil && payload != nil ==> !sameblock(result0.payload, payload)
+//@   ensures private_csrc_and_extensions: result0 != nil ==> !sameblock(result0.header.CSRC, header.CSRC) && !sameblock(result0.header.Extensions, header.Extensions)
+//@   ensures caller_payload_untouched: forall k int :: 0 <= k && k < len(payload) ==> payload[k] == old(payload[k])
+//@   ensures caller_header_untouched: header.SequenceNumber == old(header.SequenceNumber) && header.SSRC == old(header.SSRC) && header.PayloadType == old(header.PayloadType)
+//@        && header.Timestamp == old(header.Timestamp) && header.Padding == old(header.Padding) && header.PaddingSize == old(header.PaddingSize) && header.Marker == old(header.Marker)
+//@        && header.CSRC == old(header.CSRC) && header.Extensions == old(header.Extensions) && header.Extension == old(header.Extension) && header.ExtensionProfile == old(header.ExtensionProfile)
+//@   # plain form (no RTX negotiated): header and payload equal the packet as sent
+//@   ensures plain_header: result0 != nil && !(rtxSsrc != 0 && rtxPayloadType != 0) ==>
+//@           result0.header.SequenceNumber == header.SequenceNumber && result0.header.SSRC == header.SSRC && result0.header.PayloadType == header.PayloadType
+//@        && result0.header.Timestamp == header.Timestamp && result0.header.Marker == header.Marker && result0.header.Padding == header.Padding
+//@        && result0.header.PaddingSize == header.PaddingSize && result0.header.Version == header.Version && result0.header.Extension == header.Extension
+//@        && result0.header.ExtensionProfile == header.ExtensionProfile && len(result0.header.CSRC) == len(header.CSRC) && len(result0.header.Extensions) == len(header.Extensions)
+//@   ensures plain_csrc: result0 != nil && !(rtxSsrc != 0 && rtxPayloadType != 0) ==> forall k int :: 0 <= k && k < len(header.CSRC) ==> result0.header.CSRC[k] == header.CSRC[k]
+//@   ensures plain_payload_len: result0 != nil && !(rtxSsrc != 0 && rtxPayloadType != 0) ==> len(result0.payload) == len(payload)
+//@   ensures plain_payload: result0 != nil && !(rtxSsrc != 0 && rtxPayloadType != 0) ==> forall k int :: 0 <= k && k < len(payload) ==> result0.payload[k] == old(payload[k])
+//@   # RFC 4588 form
+//@   ensures rtx_header: result0 != nil && rtxSsrc != 0 && rtxPayloadType != 0 ==> result0.header.SSRC == rtxSsrc && result0.header.PayloadType == rtxPayloadType
+//@        && result0.header.SequenceNumber == callres("m.rtxSequencer.NextSequenceNumber", 0) && calls("m.rtxSequencer.NextSequenceNumber") == 1
+//@        && result0.header.Timestamp == header.Timestamp && result0.header.Marker == header.Marker && !result0.header.Padding && (header.Padding ==> result0.header.PaddingSize == 0)
+//@   ensures rtx_osn: result0 != nil && rtxSsrc != 0 && rtxPayloadType != 0 ==> len(result0.payload) >= 2
+//@        && result0.payload[0] == uint8(header.SequenceNumber >> 8) && result0.payload[1] == uint8(header.SequenceNumber)
+//@   ensures rtx_len_nopad: result0 != nil && rtxSsrc != 0 && rtxPayloadType != 0 && !(header.Padding && header.PaddingSize == 0 && len(payload) > 0) ==> len(result0.payload) == len(payload) + 2
+//@   ensures rtx_len_pad: result0 != nil && rtxSsrc != 0 && rtxPayloadType != 0 && header.Padding && header.PaddingSize == 0 && len(payload) > 0 ==>
+//@        len(result0.payload) == len(payload) + 2 - int(old(payload[len(payload) - 1])) && int(old(payload[len(payload) - 1])) <= len(payload)
+//@   ensures rtx_payload: result0 != nil && rtxSsrc != 0 && rtxPayloadType != 0 ==> forall k int :: 0 <= k && k < len(payload) && k + 2 < len(result0.payload) ==> result0.payload[k + 2] == old(payload[k])
